@@ -83,6 +83,10 @@ type service struct {
 	// Topics manager for all the client subscriptions
 	topicsMgr *topics.Manager
 
+	// topicsName is the name under which a client's own topics provider is
+	// registered. Client side only.
+	topicsName string
+
 	// sess is the session object for this MQTT session. It keeps track session variables
 	// such as ClientId, KeepAlive, Username, etc
 	sess *sessions.Session
@@ -266,7 +270,7 @@ func (svc *service) stop() {
 
 	// Remove the client topics manager
 	if svc.client {
-		topics.Unregister(svc.sess.ID())
+		topics.Unregister(svc.topicsName)
 	}
 
 	// Remove the session from session store if it's suppose to be clean session
